@@ -18,27 +18,24 @@ Theorem crash_keeps_term_and_vote :
 Proof. exact crash_keeps_term_and_vote_lemma. Qed.
 Print Assumptions crash_keeps_term_and_vote.
 
-(* [REFUTED] part A, restart_never_fatal fails on the current code (finding F10): there is a schedule of legitimate events only
-   (every delivered message was emitted earlier in the run, the snapshot is of committed applied state) with one crash
-   between two durable mutations (op 10: handleSnapshot after the snapshot Commit, before log.Truncate) after which the
-   leader's next AppEnts drives the restarted follower into the Fatalf `there's gap between last entry ...` *)
-Theorem restart_never_fatal_refuted :
-  exists ops, legit_schedule ops = true /\ observes [666%Z; Z.of_N F_GAP] ops = true /\
-              existsb (fun op => match op with 10%Z :: _ => true | _ => false end) ops = true.
-Proof. exists f10_witness. exact f10_witness_ok. Qed.
-Print Assumptions restart_never_fatal_refuted.
+(* [FULL] part A, regression for the fixed finding F10: the schedule of legitimate events with a crash in handleSnapshot between the snapshot
+   Commit and log.Truncate, on which the code used to die with the gap Fatalf, is survived without any Fatalf *)
+Theorem f10_schedule_survived :
+  legit_schedule f10_witness = true /\
+  existsb (fun l => match l with 666%Z :: _ => true | _ => false end) (run_case f10_witness) = false /\
+  existsb (fun op => match op with 10%Z :: _ => true | _ => false end) f10_witness = true.
+Proof. exact C07.A_Proofs.f10_schedule_survived. Qed.
+Print Assumptions f10_schedule_survived.
 
-(* [REFUTED] part A, the recovery code's assumption "the log end is never behind the snapshot" fails after a crash on the current code (F10):
-   there is a schedule of legitimate events ending with a crash between two durable mutations after which the restarted
-   node holds a commit index beyond its last persisted index and a snapshot that is not a prefix of its log *)
-Theorem restart_storage_consistent_refuted :
-  exists ops, legit_schedule ops = true /\
-    exists c s, final_state ops = Some c /\ get_node 3 c = Some s /\
-                last_index (n_p s) < n_commit s /\ ~ storage_ok (n_p s).
-Proof. exists f10_prefix. exact f10_state_ok. Qed.
-Print Assumptions restart_storage_consistent_refuted.
+(* [FULL] part A, and right after that crash the restarted node's commit index is within its storage and the stale log is gone *)
+Theorem f10_state_repaired :
+  legit_schedule f10_prefix = true /\
+  exists c s, final_state f10_prefix = Some c /\ get_node 3 c = Some s /\
+              n_commit s <= last_index (n_p s) /\ p_log (n_p s) = [].
+Proof. exact C07.A_Proofs.f10_state_repaired. Qed.
+Print Assumptions f10_state_repaired.
 
-(* [FULL] part A, the carved-out version for the repaired start-up (newCore reconciles log and snapshot first): from every surviving
+(* [FULL] part A, newCore (which reconciles log and snapshot first since the fix of F10): from every surviving
    persistent state with a contiguous 1-based log, i.e. after a crash at any point whatsoever, the repaired newCore
    leaves storage in which the snapshot is a prefix of the log *)
 Theorem restart_repaired_storage_consistent :
@@ -95,17 +92,24 @@ Theorem handler_equals_its_durable_mutations :
 Proof. exact handler_equals_its_durable_mutations_lemma. Qed.
 Print Assumptions handler_equals_its_durable_mutations.
 
-(* [REFUTED] part A, "is always able to catch up with its group" fails on the current code for a reason independent of crashes (finding F20):
-   there is a schedule of legitimate events (one message lost, one negative AppEntsResp delayed) after which the leader's
-   nextIndex for a follower is not above its matchIndex although the follower is behind the leader's log *)
-Theorem catch_up_refuted :
-  exists ops, legit_schedule ops = true /\
-    exists c nx mt li, final_state ops = Some c /\ leader_view c 1 3 = Some (nx, mt, li) /\
-                       nx <= mt /\ mt < li /\ (exists s, get_node 1 c = Some s /\ n_role s = Leader).
-Proof. exists f20_witness. exact f20_witness_ok. Qed.
-Print Assumptions catch_up_refuted.
+(* [FULL] part A, regression for the fixed finding F23: on the schedule with a lost AppEnts and a delayed negative AppEntsResp the leader's
+   nextIndex for the follower stays above its matchIndex *)
+Theorem f23_schedule_not_wedged :
+  legit_schedule f23_witness = true /\
+  exists c nx mt li, final_state f23_witness = Some c /\ leader_view c 1 3 = Some (nx, mt, li) /\ mt < nx.
+Proof. exact C07.A_Wedge.f23_schedule_not_wedged. Qed.
+Print Assumptions f23_schedule_not_wedged.
 
-(* [FULL] part A, why that state is a dead end, for every leader state and every peer with nextIndex not above matchIndex: whatever
+(* [FULL] part A, since the fix of F23, for every leader state and every negative AppEntsResp that is not discarded as stale: afterwards the
+   peer's nextIndex is above its matchIndex, so the leader never starts probing below what the follower is known to hold *)
+Theorem negative_response_keeps_next_above_match :
+  forall s from p ix hi s', peer_get from (l_peers s) = Some p -> pr_match p <= ix ->
+    handle_app_ents_resp s from false ix hi = Ret s' ->
+    exists p', peer_get from (l_peers s') = Some p' /\ pr_match p' < pr_next p'.
+Proof. exact C07.A_Wedge.negative_response_keeps_next_above_match. Qed.
+Print Assumptions negative_response_keeps_next_above_match.
+
+(* [FULL] part A, why such a state was a dead end before the fix, for every leader state and every peer with nextIndex not above matchIndex: whatever
    the leader builds for that peer is an entry-less probe strictly below matchIndex *)
 Theorem wedged_leader_only_probes_below_match :
   forall s p b, wedged p -> get_app_ents s p = Ret (Some b) ->
